@@ -55,7 +55,7 @@ class Preemptor:
             self.count[key] += 1
             p = key + (self.count[key],)
             self.points.append(p)
-            self.point_time[p] = self.sim.now_us
+            self.point_time[p] = self.sim.now_us - vt.EPOCH_US       # same clock as the events' t
             if p in self.targets:
                 self._hold(p)
         return self._local
